@@ -504,8 +504,18 @@ func c18ErrorFirst(c *Ctx) {
 	n := 0
 	for _, fn := range p.sortedFuncs() {
 		pr := pkgRelOf(fn)
-		if !strings.HasPrefix(pr, "migration/") || strings.HasPrefix(pr, "migration/deprecated") || fn.Origin() != nil || fn.Name() != "Migrate" || strings.HasSuffix(p.Pos(fnPos(fn)), "_test.go") {
+		if !strings.HasPrefix(pr, "migration/") || strings.HasPrefix(pr, "migration/deprecated") || fn.Origin() != nil || strings.HasSuffix(p.Pos(fnPos(fn)), "_test.go") {
 			continue
+		}
+		// Migrate itself, or a piece of it (a function that only Migrate reaches)
+		if fn.Name() != "Migrate" && !(fn.Parent() == nil && p.calledOnlyFrom(fn, "Migrate", 0)) {
+			continue
+		}
+		resultParam := false
+		for _, pa := range fn.Params {
+			if isNamed(pa.Type(), "migration/pipeline", "Result") {
+				resultParam = true
+			}
 		}
 		var results []ssa.Instruction
 		allInstrs(fn, func(in ssa.Instruction) {
@@ -515,14 +525,15 @@ func c18ErrorFirst(c *Ctx) {
 				}
 			}
 		})
-		if len(results) == 0 {
+		if len(results) == 0 && !resultParam {
 			continue
 		}
 		for _, ret := range returnsOf(fn) {
-			if !isNilConst(ret.Results[len(ret.Results)-1]) {
+			if len(ret.Results) == 0 || !isNilConst(ret.Results[len(ret.Results)-1]) {
 				continue
 			}
-			after := false
+			// a tail call that hands the result on is judged in the callee
+			after := resultParam
 			for _, r := range results {
 				if dominatesInstr(r, ret.Ret) {
 					after = true
